@@ -7,3 +7,5 @@
 ; nextPID  : every page id handed out by the disk manager so far is < nextPID
 (define-fun eq4096 ((a (Array Int Int)) (b (Array Int Int))) Bool
   (forall ((j Int)) (! (=> (and (<= 0 j) (< j 4096)) (= (select a j) (select b j))) :pattern ((select a j)) :pattern ((select b j)))))
+; number of log records the buffer pool appended (page-id recycling must be logged)
+;@ghost nlog Int
